@@ -3,11 +3,14 @@
    Part 2: the three comment forms (line comments, TypeScript block comment, Python docstring):
            what the lexer does on a doc string, exactly.
    Part 3: per language: the fragment printed by the model's write_comments IS the template of
-           Spec/C15Spec.v; it is contained iff every doc string is safe_<l>.
+           Spec/C15Spec.v; it is contained iff every string AS WRITTEN is safe_<l>; the two escapes
+           (TypeScript, Python docstrings) make every written string safe; so does the absence of line
+           breaks for the line-comment writers.
    Part 4: files as sequences of code parts and comment fragments (whole-file lifting, partial).
-   Part 5: witnesses against the unrestricted statement, through the model's generators. *)
+   Part 5: regression pins (the former witnesses) through the model's front end and generators.
+   Part 6: the front end carries trimmed lines; containment without hypothesis on the attribute values. *)
 From Coq Require Import List NArith Bool Lia String.
-From TS Require Import Model.Str Spec.Lexers Spec.C15Spec.
+From TS Require Import Model.Str Spec.Lexers Spec.C15Spec Proofs.C15_Replace.
 From TS Require Import Model.Lang.TypeScript Model.Lang.Kotlin Model.Lang.Swift Model.Lang.Scala Model.Lang.Go Model.Lang.Python.
 Import ListNotations.
 Local Open Scope N_scope.
@@ -278,74 +281,55 @@ Lemma join_lines' (sep pre1 pre2 : str) x r rest :
   flat_map (fun d => (pre1 ++ pre2) ++ d ++ sep) (x :: r) ++ rest.
 Proof. rewrite <- join_lines. now rewrite <- ?app_assoc. Qed.
 
+(* ---- 3a: the fragments, given the strings AS WRITTEN (the [_w] templates of Spec/C15Spec.v) ---- *)
 (* ---- Kotlin ---- *)
 Lemma kt_pre n : lex_str_gen cfg_kt LCode (tabs_ n ++ lit "/// ") = LLine.
 Proof. rewrite lex_str_app, lex_tabs by reflexivity. reflexivity. Qed.
 
-Lemma C15_lex_kt indent docs t :
-  lex_marked cfg_kt LCode (mark (kt_tmpl indent docs) ++ t) =
-  if forallb safe_kt docs then lex_marked cfg_kt LCode t else None.
+Lemma C15_lex_kt_w indent ws t :
+  lex_marked cfg_kt LCode (mark (kt_tmpl_w indent ws) ++ t) =
+  if forallb safe_kt ws then lex_marked cfg_kt LCode t else None.
 Proof. apply (line_tmpl_lex cfg_kt); [apply kt_pre|reflexivity]. Qed.
 
-Theorem C15_exact_kt indent docs :
-  c15_contained C15kt LCode (mark (kt_tmpl indent docs)) = forallb safe_kt docs.
-Proof. apply contained_of_lex. intros t. apply C15_lex_kt. Qed.
-
-Theorem C15_fragment_kt indent docs :
-  text_of (kt_tmpl indent docs) = kt_write_comments indent docs /\ docs_of (kt_tmpl indent docs) = docs.
+Lemma kt_tmpl_w_text indent ws : text_of (kt_tmpl_w indent ws) = kt_write_comments indent ws.
 Proof.
-  split; [|apply line_tmpl_docs]. unfold kt_tmpl, kt_write_comments. rewrite line_tmpl_text, <- flat_map_concat_map.
+  unfold kt_tmpl_w, kt_write_comments. rewrite line_tmpl_text, <- flat_map_concat_map.
   apply flat_map_ext. intros d. unfold kt_write_comment, tabs, tabs_, nl. now rewrite <- ?app_assoc.
 Qed.
 
 (* ---- Swift ---- *)
-Lemma C15_lex_sw indent docs t :
-  lex_marked cfg_sw LCode (mark (sw_tmpl indent docs) ++ t) =
-  if forallb safe_sw docs then lex_marked cfg_sw LCode t else None.
+Lemma C15_lex_sw_w indent ws t :
+  lex_marked cfg_sw LCode (mark (sw_tmpl_w indent ws) ++ t) =
+  if forallb safe_sw ws then lex_marked cfg_sw LCode t else None.
 Proof. apply (line_tmpl_lex cfg_sw); [rewrite lex_str_app, lex_tabs by reflexivity; reflexivity|reflexivity]. Qed.
 
-Theorem C15_exact_sw indent docs :
-  c15_contained C15sw LCode (mark (sw_tmpl indent docs)) = forallb safe_sw docs.
-Proof. apply contained_of_lex. intros t. apply C15_lex_sw. Qed.
-
-Theorem C15_fragment_sw indent docs :
-  text_of (sw_tmpl indent docs) = sw_render_comments indent docs /\ docs_of (sw_tmpl indent docs) = docs.
+Lemma sw_tmpl_w_text indent ws : text_of (sw_tmpl_w indent ws) = sw_render_comments indent ws.
 Proof.
-  split; [|apply line_tmpl_docs]. unfold sw_tmpl, sw_render_comments. rewrite line_tmpl_text.
+  unfold sw_tmpl_w, sw_render_comments. rewrite line_tmpl_text.
   apply flat_map_ext. intros d. unfold sw_tabs, tabs_, sw_nl. now rewrite <- ?app_assoc.
 Qed.
 
 (* ---- Scala ---- *)
-Lemma C15_lex_sc indent docs t :
-  lex_marked cfg_sc LCode (mark (sc_tmpl indent docs) ++ t) =
-  if forallb safe_sc docs then lex_marked cfg_sc LCode t else None.
+Lemma C15_lex_sc_w indent ws t :
+  lex_marked cfg_sc LCode (mark (sc_tmpl_w indent ws) ++ t) =
+  if forallb safe_sc ws then lex_marked cfg_sc LCode t else None.
 Proof. apply (line_tmpl_lex cfg_sc); [rewrite lex_str_app, lex_tabs by reflexivity; reflexivity|reflexivity]. Qed.
 
-Theorem C15_exact_sc indent docs :
-  c15_contained C15sc LCode (mark (sc_tmpl indent docs)) = forallb safe_sc docs.
-Proof. apply contained_of_lex. intros t. apply C15_lex_sc. Qed.
-
-Theorem C15_fragment_sc indent docs :
-  text_of (sc_tmpl indent docs) = sc_write_comments indent docs /\ docs_of (sc_tmpl indent docs) = docs.
+Lemma sc_tmpl_w_text indent ws : text_of (sc_tmpl_w indent ws) = sc_write_comments indent ws.
 Proof.
-  split; [|apply line_tmpl_docs]. unfold sc_tmpl, sc_write_comments. rewrite line_tmpl_text, <- flat_map_concat_map.
+  unfold sc_tmpl_w, sc_write_comments. rewrite line_tmpl_text, <- flat_map_concat_map.
   apply flat_map_ext. intros d. unfold sc_write_comment, sc_tabs, tabs_, sc_nl. now rewrite <- ?app_assoc.
 Qed.
 
 (* ---- Go ---- *)
-Lemma C15_lex_go indent docs t :
-  lex_marked cfg_go LCode (mark (go_tmpl indent docs) ++ t) =
-  if forallb safe_go docs then lex_marked cfg_go LCode t else None.
+Lemma C15_lex_go_w indent ws t :
+  lex_marked cfg_go LCode (mark (go_tmpl_w indent ws) ++ t) =
+  if forallb safe_go ws then lex_marked cfg_go LCode t else None.
 Proof. apply (line_tmpl_lex cfg_go); [rewrite lex_str_app, lex_tabs by reflexivity; reflexivity|reflexivity]. Qed.
 
-Theorem C15_exact_go indent docs :
-  c15_contained C15go LCode (mark (go_tmpl indent docs)) = forallb safe_go docs.
-Proof. apply contained_of_lex. intros t. apply C15_lex_go. Qed.
-
-Theorem C15_fragment_go indent docs :
-  text_of (go_tmpl indent docs) = go_write_comments indent docs /\ docs_of (go_tmpl indent docs) = docs.
+Lemma go_tmpl_w_text indent ws : text_of (go_tmpl_w indent ws) = go_write_comments indent ws.
 Proof.
-  split; [|apply line_tmpl_docs]. unfold go_tmpl, go_write_comments. rewrite line_tmpl_text.
+  unfold go_tmpl_w, go_write_comments. rewrite line_tmpl_text.
   apply flat_map_ext. intros d. unfold go_write_comment, go_tabs, tabs_, go_nl. now rewrite <- ?app_assoc.
 Qed.
 
@@ -364,39 +348,37 @@ Lemma ts_lines_lex n docs t :
   if forallb safe_ts docs then lex_marked cfg_ts (LBlock 0 PNone) t else None.
 Proof. apply (lines_lex cfg_ts (LBlock 0 PNone) (LBlock 0 PNone)); [apply ts_star_pre|apply ts_doc_spec]. Qed.
 
-Lemma C15_lex_ts indent docs t :
-  lex_marked cfg_ts LCode (mark (ts_tmpl indent docs) ++ t) =
+Lemma C15_lex_ts_w indent docs t :
+  lex_marked cfg_ts LCode (mark (ts_tmpl_w indent docs) ++ t) =
   if forallb safe_ts docs then lex_marked cfg_ts LCode t else None.
 Proof.
   destruct docs as [|d [|d2 r]].
   - reflexivity.
-  - cbn [ts_tmpl forallb mark flat_map piece_mark app]. rewrite andb_true_r, <- ?app_assoc.
+  - cbn [ts_tmpl_w forallb mark flat_map piece_mark app]. rewrite andb_true_r, <- ?app_assoc.
     rewrite lex_marked_lit, ts_open, lex_marked_app.
     pose proof (ts_doc_lex false d) as H. cbn [pend_of] in H. rewrite safe_ts_blk, H.
     destruct (blk_ok false d); [|reflexivity].
     rewrite lex_marked_lit. now destruct (blk_end false d).
-  - cbn [ts_tmpl]. rewrite !mark_app. cbn [mark flat_map piece_mark]. rewrite ?app_nil_r, <- ?app_assoc.
+  - cbn [ts_tmpl_w]. rewrite !mark_app. cbn [mark flat_map piece_mark]. rewrite ?app_nil_r, <- ?app_assoc.
     rewrite lex_marked_lit, ts_open_nl, ts_lines_lex.
     destruct (forallb safe_ts (d :: d2 :: r)); [|reflexivity].
     now rewrite lex_marked_lit, ts_close.
 Qed.
 
-Theorem C15_exact_ts indent docs :
-  c15_contained C15ts LCode (mark (ts_tmpl indent docs)) = forallb safe_ts docs.
-Proof. apply contained_of_lex. intros t. apply C15_lex_ts. Qed.
-
-Theorem C15_fragment_ts indent docs :
-  text_of (ts_tmpl indent docs) = ts_comments indent docs /\ docs_of (ts_tmpl indent docs) = docs.
+Lemma ts_tmpl_w_text indent ws : text_of (ts_tmpl_w indent ws) = ts_comments_raw indent ws.
 Proof.
-  destruct docs as [|d [|d2 r]]; [split; reflexivity| |].
-  - split; [|reflexivity]. cbn [ts_tmpl text_of flat_map piece_text ts_comments app].
+  destruct ws as [|d [|d2 r]]; [reflexivity| |].
+  - cbn [ts_tmpl_w text_of flat_map piece_text ts_comments_raw app].
     unfold tabs, tabs_, nl. now rewrite app_nil_r, <- ?app_assoc.
-  - split.
-    + cbn [ts_tmpl ts_comments]. rewrite !text_of_app, line_tmpl_text.
-      match goal with |- context [flat_map ?f (d :: d2 :: r)] => set (F := flat_map f (d :: d2 :: r)) end.
-      cbn [text_of flat_map piece_text]. rewrite ?app_nil_r. subst F.
-      unfold tabs, tabs_, nl. rewrite join_lines'. now rewrite <- ?app_assoc.
-    + cbn [ts_tmpl]. rewrite !docs_of_app, line_tmpl_docs. cbn [docs_of flat_map app]. now rewrite app_nil_r.
+  - cbn [ts_tmpl_w ts_comments_raw]. rewrite !text_of_app, line_tmpl_text.
+    match goal with |- context [flat_map ?f (d :: d2 :: r)] => set (F := flat_map f (d :: d2 :: r)) end.
+    cbn [text_of flat_map piece_text]. rewrite ?app_nil_r. subst F.
+    unfold tabs, tabs_, nl. rewrite join_lines'. now rewrite <- ?app_assoc.
+Qed.
+Lemma ts_tmpl_w_docs indent ws : docs_of (ts_tmpl_w indent ws) = ws.
+Proof.
+  destruct ws as [|d [|d2 r]]; [reflexivity|reflexivity|].
+  cbn [ts_tmpl_w]. rewrite !docs_of_app, line_tmpl_docs. cbn [docs_of flat_map app]. now rewrite app_nil_r.
 Qed.
 
 (* ---- Python ---- *)
@@ -412,24 +394,20 @@ Proof.
   apply (lines_lex cfg_py (LTriple ch_dq 0 false) (LTriple ch_dq 0 false)); [apply py_indent_triple|apply py_doc_spec].
 Qed.
 
-Lemma C15_lex_py docstring indent docs t :
-  lex_marked cfg_py LCode (mark (py_tmpl docstring indent docs) ++ t) =
+Lemma C15_lex_py_w docstring indent docs t :
+  lex_marked cfg_py LCode (mark (py_tmpl_w docstring indent docs) ++ t) =
   if forallb (safe_py docstring) docs then lex_marked cfg_py LCode t else None.
 Proof.
   destruct docs as [|d r]; [reflexivity|]. destruct docstring.
-  - cbn [py_tmpl]. rewrite !mark_app. cbn [mark flat_map piece_mark]. rewrite ?app_nil_r, <- ?app_assoc.
+  - cbn [py_tmpl_w]. rewrite !mark_app. cbn [mark flat_map piece_mark]. rewrite ?app_nil_r, <- ?app_assoc.
     rewrite lex_marked_lit, lex_str_app, py_indent_code.
     change (lex_str_gen cfg_py LCode (lit """""""" ++ [ch_nl])) with (LTriple ch_dq 0 false).
     rewrite py_lines_lex. change (safe_py true) with safe_py_docstring.
     destruct (forallb safe_py_docstring (d :: r)); [|reflexivity].
     rewrite lex_marked_lit, lex_str_app, py_indent_triple. reflexivity.
-  - cbn [py_tmpl]. apply (line_tmpl_lex cfg_py); [|reflexivity].
+  - cbn [py_tmpl_w]. apply (line_tmpl_lex cfg_py); [|reflexivity].
     rewrite lex_str_app, py_indent_code. reflexivity.
 Qed.
-
-Theorem C15_exact_py docstring indent docs :
-  c15_contained C15py LCode (mark (py_tmpl docstring indent docs)) = forallb (safe_py docstring) docs.
-Proof. apply contained_of_lex. intros t. apply C15_lex_py. Qed.
 
 Lemma join_map_lines (f : str -> str) x r rest :
   join [ch_nl] (map f (x :: r)) ++ [ch_nl] ++ rest = flat_map (fun d => f d ++ [ch_nl]) (x :: r) ++ rest.
@@ -440,39 +418,215 @@ Proof.
     rewrite flat_map_cons, <- ?app_assoc, (IH y). reflexivity.
 Qed.
 
-Theorem C15_fragment_py docstring indent docs :
-  text_of (py_tmpl docstring indent docs) = py_write_comments docstring docs indent /\
-  docs_of (py_tmpl docstring indent docs) = docs.
+(* python.rs write_comments on the strings as written (what the model's py_write_comments prints after its escape) *)
+Definition py_write_comments_w (is_docstring : bool) (ws : list str) (indent_level : nat) : str :=
+  let indent := py_indent indent_level in
+  match ws with
+  | [] => []
+  | _ =>
+    (if is_docstring then
+       indent ++ lit """""""" ++ py_nl ++
+       join py_nl (map (fun v => indent ++ v) ws) ++ py_nl ++
+       indent ++ lit """"""""
+     else join py_nl (map (fun v => indent ++ lit "# " ++ v) ws)) ++ py_nl
+  end.
+
+Lemma py_tmpl_w_text docstring indent ws : text_of (py_tmpl_w docstring indent ws) = py_write_comments_w docstring ws indent.
 Proof.
-  destruct docs as [|d r]; [split; reflexivity|]. destruct docstring; split.
-  - cbn [py_tmpl py_write_comments]. rewrite !text_of_app, line_tmpl_text. unfold py_indent, py_nl.
+  destruct ws as [|d r]; [reflexivity|]. destruct docstring.
+  - cbn [py_tmpl_w py_write_comments_w]. rewrite !text_of_app, line_tmpl_text. unfold py_indent, py_nl.
     set (ind := repeat_str (lit "    ") indent).
     match goal with |- context [flat_map ?f (d :: r)] => set (F := flat_map f (d :: r)) end.
     cbn [text_of flat_map piece_text]. rewrite ?app_nil_r.
     replace F with (flat_map (fun d0 => (ind ++ d0) ++ [ch_nl]) (d :: r))
       by (apply flat_map_ext; intros; now rewrite <- app_assoc).
     rewrite <- ?app_assoc. now rewrite join_map_lines.
-  - cbn [py_tmpl]. rewrite !docs_of_app, line_tmpl_docs. cbn [docs_of flat_map app]. now rewrite app_nil_r.
-  - cbn [py_tmpl py_write_comments]. rewrite line_tmpl_text. unfold py_indent, py_nl.
+  - cbn [py_tmpl_w py_write_comments_w]. rewrite line_tmpl_text. unfold py_indent, py_nl.
     set (ind := repeat_str (lit "    ") indent).
     rewrite <- (app_nil_r (join _ _ ++ _)), <- app_assoc, join_map_lines, app_nil_r.
     apply flat_map_ext; intros; now rewrite <- ?app_assoc.
-  - cbn [py_tmpl]. apply line_tmpl_docs.
+Qed.
+Lemma py_tmpl_w_docs docstring indent ws : docs_of (py_tmpl_w docstring indent ws) = ws.
+Proof.
+  destruct ws as [|d r]; [reflexivity|]. destruct docstring.
+  - cbn [py_tmpl_w]. rewrite !docs_of_app, line_tmpl_docs. cbn [docs_of flat_map app]. now rewrite app_nil_r.
+  - cbn [py_tmpl_w]. apply line_tmpl_docs.
 Qed.
 
-(* the six languages at once *)
+(* the six languages at once, strings as written: contained iff every written string is safe_<l> *)
+Lemma C15_lex_w l docstring indent ws t :
+  lex_marked (c15_cfg l) LCode (mark (c15_tmpl_w l docstring indent ws) ++ t) =
+  if forallb (c15_safe_w l docstring) ws then lex_marked (c15_cfg l) LCode t else None.
+Proof.
+  destruct l; cbn [c15_tmpl_w c15_safe_w c15_cfg].
+  - apply C15_lex_ts_w. - apply C15_lex_kt_w. - apply C15_lex_sw_w.
+  - apply C15_lex_sc_w. - apply C15_lex_go_w. - apply C15_lex_py_w.
+Qed.
+
+Theorem C15_exact_w l docstring indent ws :
+  c15_contained l LCode (mark (c15_tmpl_w l docstring indent ws)) = forallb (c15_safe_w l docstring) ws.
+Proof. apply contained_of_lex. intros t. apply C15_lex_w. Qed.
+
+Lemma c15_tmpl_w_docs l docstring indent ws : docs_of (c15_tmpl_w l docstring indent ws) = ws.
+Proof.
+  destruct l; cbn [c15_tmpl_w].
+  - apply ts_tmpl_w_docs. - apply line_tmpl_docs. - apply line_tmpl_docs.
+  - apply line_tmpl_docs. - apply line_tmpl_docs. - apply py_tmpl_w_docs.
+Qed.
+
+(* ---- 3b: the escapes remove the terminators ---- *)
+(* TypeScript: after the escape no star is followed by a slash *)
+Lemma c15_esc_ts_blk d : forall star, blk_ok star (c15_esc_ts d) = negb (star && starts_with [ch_slash] d).
+Proof.
+  induction d as [|c r IH]; intros star; [cbn; now rewrite andb_false_r|].
+  cbn [c15_esc_ts]. destruct ((c =? ch_star) && starts_with [ch_slash] r) eqn:E.
+  - apply andb_true_iff in E as [E1 E2]. apply N.eqb_eq in E1. subst c.
+    cbn [blk_ok starts_with]. change (ch_star =? ch_slash) with false. change (ch_slash =? ch_star) with false.
+    rewrite !andb_false_r. cbn [andb negb]. change (ch_bs =? ch_slash) with false. change (ch_bs =? ch_star) with false.
+    cbn [andb]. rewrite IH. reflexivity.
+  - cbn [blk_ok starts_with]. rewrite andb_true_r, (N.eqb_sym ch_slash c).
+    destruct (star && (c =? ch_slash)); [reflexivity|]. rewrite IH, E. reflexivity.
+Qed.
+Theorem c15_esc_ts_safe d : safe_ts (c15_esc_ts d) = true.
+Proof. rewrite safe_ts_blk, c15_esc_ts_blk. reflexivity. Qed.
+
+(* Python: after the escape there are never three unescaped quotes in a row, whatever precedes.
+   [n] unescaped quotes have just been read ([esc]: an unescaped backslash has): that is fine as long as the
+   rest d does not complete them to three, which leftmost-first replacement guarantees *)
+Definition c15_py_inv (n : nat) (esc : bool) (d : str) : Prop :=
+  esc = true \/ match n with
+                | O => True
+                | S O => starts_with [ch_dq; ch_dq] d = false
+                | _ => starts_with [ch_dq] d = false
+                end.
+
+Lemma c15_esc_py_scan k : forall d n esc, (List.length d <= k)%nat -> c15_py_inv n esc d ->
+  py_doc_scan n esc (c15_esc_py d) = true.
+Proof.
+  induction k as [|k IH]; intros d n esc Hk Hinv.
+  - destruct d; [reflexivity|cbn in Hk; lia].
+  - destruct d as [|c r]; [reflexivity|]. cbn [List.length] in Hk.
+    assert (Hplain : ~ (exists r3, r = ch_dq :: ch_dq :: r3 /\ c = ch_dq) -> c15_py_inv n esc (c :: r) ->
+                     py_doc_scan n esc (c :: c15_esc_py r) = true).
+    { intros Hno Hi. cbn [py_doc_scan]. destruct esc.
+      - apply IH; [lia|]. right. exact I.
+      - destruct Hi as [Hi|Hi]; [discriminate|].
+        destruct (c =? ch_bs) eqn:Ebs; [apply IH; [lia|now left]|].
+        destruct (c =? ch_dq) eqn:Edq; [|apply IH; [lia|right; exact I]].
+        apply N.eqb_eq in Edq. subst c.
+        destruct n as [|[|n]].
+        + cbn [Nat.leb]. apply IH; [lia|]. right. destruct r as [|c2 [|c3 r3]]; try reflexivity.
+          * cbn [starts_with]. now rewrite andb_false_r.
+          * cbn [starts_with]. rewrite andb_true_r. destruct (ch_dq =? c2) eqn:E2; [|reflexivity].
+            destruct (ch_dq =? c3) eqn:E3; [|reflexivity]. apply N.eqb_eq in E2, E3. subst. exfalso. apply Hno. eauto.
+        + cbn [Nat.leb]. apply IH; [lia|]. right.
+          cbn [starts_with] in Hi. change (ch_dq =? ch_dq) with true in Hi. cbn [andb] in Hi.
+          destruct r as [|c2 r2]; [reflexivity|]. cbn [starts_with] in *. now rewrite andb_true_r in *.
+        + cbn [starts_with] in Hi. change (ch_dq =? ch_dq) with true in Hi. discriminate. }
+    destruct r as [|c2 [|c3 r3]].
+    + apply Hplain; [|exact Hinv]. intros (r3 & E & _). discriminate.
+    + apply Hplain; [|exact Hinv]. intros (r3 & E & _). discriminate.
+    + cbn [c15_esc_py]. destruct ((c =? ch_dq) && (c2 =? ch_dq) && (c3 =? ch_dq)) eqn:E.
+      * cbn [app py_doc_scan]. change (ch_bs =? ch_bs) with true. change (ch_dq =? ch_bs) with false. change (ch_dq =? ch_dq) with true.
+        destruct esc; cbn [Nat.leb]; (apply IH; [cbn [List.length] in Hk; lia|right; exact I]).
+      * change (c :: c15_esc_py (c2 :: c3 :: r3)) with (c :: c15_esc_py (c2 :: c3 :: r3)).
+        apply Hplain; [|exact Hinv]. intros (r4 & E4 & Ec). injection E4 as -> -> _. subst c. discriminate.
+Qed.
+Theorem c15_esc_py_safe d : safe_py_docstring (c15_esc_py d) = true.
+Proof. unfold safe_py_docstring. apply (c15_esc_py_scan (List.length d)); [lia|right; exact I]. Qed.
+
+(* ---- 3c: the fragments, given the doc strings ---- *)
+Lemma forallb_map' {A B} (f : A -> B) (p : B -> bool) xs : forallb p (map f xs) = forallb (fun x => p (f x)) xs.
+Proof. induction xs as [|x r IH]; [reflexivity|]. cbn [map forallb]. now rewrite IH. Qed.
+
+(* the six languages at once: contained iff every doc string is c15_safe *)
 Lemma C15_lex l docstring indent docs t :
   lex_marked (c15_cfg l) LCode (mark (c15_tmpl l docstring indent docs) ++ t) =
   if forallb (c15_safe l docstring) docs then lex_marked (c15_cfg l) LCode t else None.
-Proof.
-  destruct l; cbn [c15_tmpl c15_safe c15_cfg].
-  - apply C15_lex_ts. - apply C15_lex_kt. - apply C15_lex_sw.
-  - apply C15_lex_sc. - apply C15_lex_go. - apply C15_lex_py.
-Qed.
+Proof. unfold c15_tmpl. rewrite C15_lex_w, forallb_map'. reflexivity. Qed.
 
 Theorem C15_exact l docstring indent docs :
   c15_contained l LCode (mark (c15_tmpl l docstring indent docs)) = forallb (c15_safe l docstring) docs.
 Proof. apply contained_of_lex. intros t. apply C15_lex. Qed.
+
+Lemma c15_tmpl_docs l docstring indent docs :
+  docs_of (c15_tmpl l docstring indent docs) = map (c15_written l docstring) docs.
+Proof. unfold c15_tmpl. apply c15_tmpl_w_docs. Qed.
+
+(* which doc strings are c15_safe: all of them for TypeScript and for Python docstrings; those without LF / CR (Go: LF)
+   for the line comment writers *)
+Lemma c15_safe_ts b d : c15_safe C15ts b d = true.
+Proof. apply c15_esc_ts_safe. Qed.
+Lemma c15_safe_py_docstring d : c15_safe C15py true d = true.
+Proof. apply c15_esc_py_safe. Qed.
+Lemma c15_forallb_impl {A} (p q : A -> bool) l : (forall x, p x = true -> q x = true) -> forallb p l = true -> forallb q l = true.
+Proof. intros H. induction l as [|x r IH]; [reflexivity|]. cbn [forallb]. rewrite !andb_true_iff. intros [H1 H2]. split; auto. Qed.
+Lemma c15_safe_no_break l b d : safe_line eol_lf_cr d = true -> c15_safe l b d = true.
+Proof.
+  intros H. destruct l; [apply c15_safe_ts|exact H|exact H|exact H| |destruct b; [apply c15_safe_py_docstring|exact H]].
+  unfold c15_safe, c15_safe_w, c15_written, safe_go, safe_line in *. revert H. apply c15_forallb_impl.
+  intros c. unfold eol_lf_cr, eol_lf. destruct (c =? ch_nl); [discriminate|reflexivity].
+Qed.
+Lemma c15_forallb_true {A} (p : A -> bool) l : (forall x, p x = true) -> forallb p l = true.
+Proof. intros H. induction l as [|x r IH]; [reflexivity|]. cbn [forallb]. now rewrite H. Qed.
+
+Lemma c15_written_id l b d : l <> C15ts -> (l = C15py -> b = false) -> c15_written l b d = d.
+Proof. intros H1 H2. destruct l; try reflexivity; [congruence|]. now rewrite (H2 eq_refl). Qed.
+Lemma c15_written_map_id l b docs : l <> C15ts -> (l = C15py -> b = false) -> map (c15_written l b) docs = docs.
+Proof. intros H1 H2. rewrite <- (map_id docs) at 2. apply map_ext. intros d. now apply c15_written_id. Qed.
+
+(* ---- per language: the fragment is what the model prints; its doc pieces are the doc strings as written ---- *)
+Theorem C15_fragment_kt indent docs :
+  text_of (kt_tmpl indent docs) = kt_write_comments indent docs /\ docs_of (kt_tmpl indent docs) = docs.
+Proof.
+  unfold kt_tmpl, c15_tmpl. rewrite c15_written_map_id by discriminate. split; [apply kt_tmpl_w_text|apply line_tmpl_docs].
+Qed.
+Theorem C15_fragment_sw indent docs :
+  text_of (sw_tmpl indent docs) = sw_render_comments indent docs /\ docs_of (sw_tmpl indent docs) = docs.
+Proof.
+  unfold sw_tmpl, c15_tmpl. rewrite c15_written_map_id by discriminate. split; [apply sw_tmpl_w_text|apply line_tmpl_docs].
+Qed.
+Theorem C15_fragment_sc indent docs :
+  text_of (sc_tmpl indent docs) = sc_write_comments indent docs /\ docs_of (sc_tmpl indent docs) = docs.
+Proof.
+  unfold sc_tmpl, c15_tmpl. rewrite c15_written_map_id by discriminate. split; [apply sc_tmpl_w_text|apply line_tmpl_docs].
+Qed.
+Theorem C15_fragment_go indent docs :
+  text_of (go_tmpl indent docs) = go_write_comments indent docs /\ docs_of (go_tmpl indent docs) = docs.
+Proof.
+  unfold go_tmpl, c15_tmpl. rewrite c15_written_map_id by discriminate. split; [apply go_tmpl_w_text|apply line_tmpl_docs].
+Qed.
+Theorem C15_fragment_ts indent docs :
+  text_of (ts_tmpl indent docs) = ts_comments indent docs /\ docs_of (ts_tmpl indent docs) = map c15_esc_ts docs.
+Proof.
+  unfold ts_tmpl, c15_tmpl. cbn [c15_tmpl_w]. change (c15_written C15ts false) with c15_esc_ts. split; [|apply ts_tmpl_w_docs].
+  rewrite ts_tmpl_w_text. unfold ts_comments. f_equal. apply map_ext. intros d. symmetry. apply ts_escape_comment_spec.
+Qed.
+Lemma py_write_comments_written docstring docs indent :
+  py_write_comments docstring docs indent = py_write_comments_w docstring (map (c15_written C15py docstring) docs) indent.
+Proof.
+  destruct docs as [|d r]; [reflexivity|]. unfold py_write_comments, py_write_comments_w. destruct docstring.
+  - cbn [c15_written]. rewrite (map_ext _ _ py_escape_docstring_spec). reflexivity.
+  - cbn [c15_written]. now rewrite map_id.
+Qed.
+Theorem C15_fragment_py docstring indent docs :
+  text_of (py_tmpl docstring indent docs) = py_write_comments docstring docs indent /\
+  docs_of (py_tmpl docstring indent docs) = map (c15_written C15py docstring) docs.
+Proof.
+  unfold py_tmpl, c15_tmpl. cbn [c15_tmpl_w]. split; [|apply py_tmpl_w_docs].
+  now rewrite py_tmpl_w_text, py_write_comments_written.
+Qed.
+Lemma C15_fragment_text l b indent docs :
+  text_of (c15_tmpl l b indent docs) =
+  match l with
+  | C15ts => ts_comments indent docs | C15kt => kt_write_comments indent docs | C15sw => sw_render_comments indent docs
+  | C15sc => sc_write_comments indent docs | C15go => go_write_comments indent docs | C15py => py_write_comments b docs indent
+  end.
+Proof.
+  destruct l.
+  - apply (C15_fragment_ts indent docs). - apply (C15_fragment_kt indent docs). - apply (C15_fragment_sw indent docs).
+  - apply (C15_fragment_sc indent docs). - apply (C15_fragment_go indent docs). - apply (C15_fragment_py b indent docs).
+Qed.
 
 (* ================= Part 4: whole files, as code parts and comment fragments ================= *)
 Lemma c15_part_lex l p t : c15_code_neutral l p ->
@@ -493,29 +647,32 @@ Proof.
   destruct (c15_part_safe l p); [apply IH|reflexivity].
 Qed.
 
-Lemma c15_file_docs l ps :
-  docs_of (c15_file_pieces l ps) = flat_map (fun p => match p with CPcode _ => [] | CPdoc _ _ ds => ds end) ps.
+(* the doc pieces of a file: the doc strings of its fragments, as written *)
+Definition c15_part_written (l : c15_lang) (p : c15_part) : list str :=
+  match p with CPcode _ => [] | CPdoc b _ ds => map (c15_written l b) ds end.
+Lemma c15_file_docs l ps : docs_of (c15_file_pieces l ps) = flat_map (c15_part_written l) ps.
 Proof.
   induction ps as [|p r IH]; [reflexivity|].
   unfold c15_file_pieces in *. cbn [flat_map]. rewrite docs_of_app, IH. f_equal.
-  destruct p as [s|b i ds]; [reflexivity|]. cbn [c15_part_pieces].
-  destruct l; cbn [c15_tmpl].
-  - apply C15_fragment_ts. - apply C15_fragment_kt. - apply C15_fragment_sw.
-  - apply C15_fragment_sc. - apply C15_fragment_go. - apply C15_fragment_py.
+  destruct p as [s|b i ds]; [reflexivity|]. cbn [c15_part_pieces c15_part_written]. apply c15_tmpl_docs.
 Qed.
 
-(* ================= Part 5: witnesses through the model's generators ================= *)
+(* ================= Part 5: regression pins through the model's generators ================= *)
 From TS Require Import Model.Outcome Model.Unicode Model.Types Model.Parse Model.Lang.Common Model.Lang.Decl.
+From TS Require Import Model.Syntax Model.Attrs.
 
 Definition c15_id (s : string) : id := {| original := lit s; renamed := lit s; via_serde_rename := false |}.
-(* #[typeshare] struct Foo { x: u8 } with one doc string on the struct *)
-Definition c15_wit (doc : str) : parsed :=
+(* #[typeshare] struct Foo { x: u8 } with the doc strings [docs] on the struct *)
+Definition c15_wit_docs (docs : list str) : parsed :=
   {| p_structs := [ {| sid := c15_id "Foo"; sgenerics := [];
                        sfields := [ {| fid := c15_id "x"; fty := RPrim PU8; fcomments := []; has_default := false; fdecs := [] |} ];
-                       scomments := [doc]; sdecs := []; sredacted := false |} ];
+                       scomments := docs; sdecs := []; sredacted := false |} ];
      p_enums := []; p_aliases := []; p_consts := []; p_type_names := [lit "Foo"]; p_errors := []; p_imports := [] |}.
-Definition c15_judge (l : c15_lang) (doc : str) (o : outcome str) : option (bool * bool) :=
-  match o with Ok t => Some (c15_reproduced [doc] t, c15_contained_in l [doc] t) | _ => None end.
+Definition c15_wit (doc : str) : parsed := c15_wit_docs [doc].
+(* the verdict of Spec/C15Spec.v on a generated file for the strings [ws] that must be found in it *)
+Definition c15_judge_all (l : c15_lang) (ws : list str) (o : outcome str) : option (bool * bool) :=
+  match o with Ok t => Some (c15_reproduced ws t, c15_contained_in l ws t) | _ => None end.
+Definition c15_judge (l : c15_lang) (doc : str) (o : outcome str) : option (bool * bool) := c15_judge_all l [doc] o.
 
 Definition c15_ts_cfg : ts_config := {| ts_type_mappings := []; ts_no_version_header := true; ts_version := [] |}.
 Definition c15_kt_cfg : kt_config :=
@@ -526,8 +683,8 @@ Definition c15_sw_cfg : sw_config :=
 Definition c15_sc_cfg : sc_config :=
   {| sc_package := lit "p.q"; sc_module_name := []; sc_type_mappings := []; sc_no_version_header := true; sc_version := [] |}.
 Definition c15_go_cfg : go_config :=
-  {| go_package := lit "p"; go_type_mappings := []; go_uppercase_acronyms := []; go_no_version_header := true;
-     go_no_pointer_slice := false; go_version := [] |}.
+  {| go_package := lit "p"; go_type_mappings := []; go_uppercase_acronyms := []; go_no_pointer_slice := false;
+     go_no_version_header := true; go_version := [] |}.
 Definition c15_py_cfg : py_config := {| py_type_mappings := []; py_no_version_header := true; py_version := [] |}.
 
 Definition c15_generate (l : c15_lang) (pd : parsed) : outcome str :=
@@ -540,62 +697,119 @@ Definition c15_generate (l : c15_lang) (pd : parsed) : outcome str :=
   | C15py => py_generate uc_exec c15_py_cfg pd
   end.
 
-(* `/** alpha<newline>beta */` arrives as the one doc string "alpha\nbeta" *)
-Definition c15_doc_two_lines : str := lit "alpha" ++ [ch_nl] ++ lit "beta".
-Definition c15_doc_star_slash : str := lit "alpha */ beta".
-Definition c15_doc_quotes : str := lit "alpha """""" beta".
+(* the attribute values of the former witnesses: `/** alpha<LF>beta */` is #[doc = " alpha<LF>beta "] *)
+Definition c15_val_two_lines : str := lit " alpha" ++ [ch_nl] ++ lit "beta ".
+Definition c15_val_star_slash : str := lit "alpha */ beta".
+Definition c15_val_quotes : str := lit " alpha """""" beta".
+Definition c15_doc_attr_of (v : str) : attr := {| a_inner := false; a_meta := MNV [lit "doc"] (VStr v) |}.
 
-(* a witness: in a finding class, the model's generator reproduces the doc string and it escapes *)
-Definition c15_refutes (l : c15_lang) (doc : str) : Prop :=
-  known_C15 l [(C15struct, [doc])] = Some (c15_class l) /\
-  c15_judge l doc (c15_generate l (c15_wit doc)) = Some (true, false).
+(* A regression pin: the doc attribute #[doc = v] on `struct Foo`, through the model's front end
+   (parse_comment_attrs) and the model's whole-file generator of language l: the front end delivers exactly the
+   carried lines, the file reproduces every carried line as written (c15_written) and every character of them is
+   read inside a comment / docstring, the lexer back in code at the end. *)
+Definition c15_pinned (l : c15_lang) (v : str) (carried : list str) : Prop :=
+  parse_comment_attrs uc_exec [c15_doc_attr_of v] = carried /\
+  c15_carried uc_exec v = carried /\
+  c15_judge_all l (map (c15_written l true) carried)
+                (c15_generate l (c15_wit_docs (parse_comment_attrs uc_exec [c15_doc_attr_of v]))) = Some (true, true).
 
-Lemma C15_kt_refuted : c15_refutes C15kt c15_doc_two_lines. Proof. split; vm_compute; reflexivity. Qed.
-Lemma C15_sw_refuted : c15_refutes C15sw c15_doc_two_lines. Proof. split; vm_compute; reflexivity. Qed.
-Lemma C15_sc_refuted : c15_refutes C15sc c15_doc_two_lines. Proof. split; vm_compute; reflexivity. Qed.
-Lemma C15_go_refuted : c15_refutes C15go c15_doc_two_lines. Proof. split; vm_compute; reflexivity. Qed.
-Lemma C15_ts_refuted : c15_refutes C15ts c15_doc_star_slash. Proof. split; vm_compute; reflexivity. Qed.
-Lemma C15_py_refuted : c15_refutes C15py c15_doc_quotes. Proof. split; vm_compute; reflexivity. Qed.
+Lemma C15_kt_fixed : c15_pinned C15kt c15_val_two_lines [lit "alpha"; lit "beta"]. Proof. repeat split; vm_compute; reflexivity. Qed.
+Lemma C15_sw_fixed : c15_pinned C15sw c15_val_two_lines [lit "alpha"; lit "beta"]. Proof. repeat split; vm_compute; reflexivity. Qed.
+Lemma C15_sc_fixed : c15_pinned C15sc c15_val_two_lines [lit "alpha"; lit "beta"]. Proof. repeat split; vm_compute; reflexivity. Qed.
+Lemma C15_go_fixed : c15_pinned C15go c15_val_two_lines [lit "alpha"; lit "beta"]. Proof. repeat split; vm_compute; reflexivity. Qed.
+Lemma C15_ts_fixed : c15_pinned C15ts c15_val_star_slash [lit "alpha */ beta"]. Proof. repeat split; vm_compute; reflexivity. Qed.
+Lemma C15_py_fixed : c15_pinned C15py c15_val_quotes [lit "alpha """""" beta"]. Proof. repeat split; vm_compute; reflexivity. Qed.
+(* and what is written there: the escapes *)
+Lemma C15_ts_fixed_written : c15_written C15ts true (lit "alpha */ beta") = lit "alpha *\/ beta". Proof. reflexivity. Qed.
+Lemma C15_py_fixed_written : c15_written C15py true (lit "alpha """""" beta") = lit "alpha \""\""\"" beta". Proof. reflexivity. Qed.
 
-(* non-vacuity: a doc string full of the property's alphabet that IS safe for the language, outside
-   the finding class, reproduced and contained in the model's output *)
-Definition c15_holds (l : c15_lang) (doc : str) : Prop :=
-  known_C15 l [(C15struct, [doc])] = None /\
-  c15_judge l doc (c15_generate l (c15_wit doc)) = Some (true, true).
+(* non-vacuity: ONE doc attribute full of the property's alphabet - comment openers and terminators of all six
+   languages, quote runs, backslashes in front of quotes and at line ends, CR LF, a lone CR, LF, a form feed, a blank
+   line - is carried as several lines, every one reproduced (as written) and contained, in every language *)
+Definition c15_val_nasty : str :=
+  lit " a */ /* // """""" ''' \ # `b` \" ++ [ch_cr; ch_nl] ++ lit "*/" ++ [ch_nl] ++ lit """""""" ++ [ch_nl; ch_nl] ++
+  lit "\""""""" ++ [ch_cr] ++ lit "c " ++ [12] ++ lit " d\" ++ [ch_nl] ++ lit " */*/ """"""""""\ ".
+Definition c15_holds (l : c15_lang) (v : str) : Prop :=
+  let carried := parse_comment_attrs uc_exec [c15_doc_attr_of v] in
+  (6 <= List.length carried)%nat /\
+  c15_judge_all l (map (c15_written l true) carried) (c15_generate l (c15_wit_docs carried)) = Some (true, true).
+Example C15_kt_nonvacuous : c15_holds C15kt c15_val_nasty. Proof. split; vm_compute; [lia|reflexivity]. Qed.
+Example C15_sw_nonvacuous : c15_holds C15sw c15_val_nasty. Proof. split; vm_compute; [lia|reflexivity]. Qed.
+Example C15_sc_nonvacuous : c15_holds C15sc c15_val_nasty. Proof. split; vm_compute; [lia|reflexivity]. Qed.
+Example C15_go_nonvacuous : c15_holds C15go c15_val_nasty. Proof. split; vm_compute; [lia|reflexivity]. Qed.
+Example C15_ts_nonvacuous : c15_holds C15ts c15_val_nasty. Proof. split; vm_compute; [lia|reflexivity]. Qed.
+Example C15_py_nonvacuous : c15_holds C15py c15_val_nasty. Proof. split; vm_compute; [lia|reflexivity]. Qed.
+(* doc strings kept for the non-vacuity examples of the renderer-level theorems (Proofs/C15_TypeScript.v, C15_Kotlin.v) *)
 Definition c15_doc_nasty_line : str := lit "a */ /* // """""" ''' \ # `b` \".
-Definition c15_doc_nasty_ts : str := lit "a /* // """""" ''' \ # `b`" ++ [ch_nl] ++ lit "* / \".
-Definition c15_doc_nasty_py : str := lit "a */ /* // """" \"""""" ''' # `b`" ++ [ch_nl] ++ lit "c \".
-
-Example C15_kt_nonvacuous : c15_holds C15kt c15_doc_nasty_line. Proof. split; vm_compute; reflexivity. Qed.
-Example C15_sw_nonvacuous : c15_holds C15sw c15_doc_nasty_line. Proof. split; vm_compute; reflexivity. Qed.
-Example C15_sc_nonvacuous : c15_holds C15sc c15_doc_nasty_line. Proof. split; vm_compute; reflexivity. Qed.
-Example C15_go_nonvacuous : c15_holds C15go c15_doc_nasty_line. Proof. split; vm_compute; reflexivity. Qed.
-Example C15_ts_nonvacuous : c15_holds C15ts c15_doc_nasty_ts. Proof. split; vm_compute; reflexivity. Qed.
-Example C15_py_nonvacuous : c15_holds C15py c15_doc_nasty_py. Proof. split; vm_compute; reflexivity. Qed.
+Definition c15_doc_nasty_ts : str := lit "a /* // """""" ''' \ # `b`" ++ [ch_nl] ++ lit "* / \ */".
 
 (* ================= Part 6: the statements of Props/C15.v ================= *)
-Lemma C15_contained_ts indent docs : forallb safe_ts docs = true ->
-  c15_contained C15ts LCode (mark (ts_tmpl indent docs)) = true.
-Proof. intros H. now rewrite C15_exact_ts. Qed.
-Lemma C15_contained_kt indent docs : forallb safe_kt docs = true ->
-  c15_contained C15kt LCode (mark (kt_tmpl indent docs)) = true.
-Proof. intros H. now rewrite C15_exact_kt. Qed.
-Lemma C15_contained_sw indent docs : forallb safe_sw docs = true ->
-  c15_contained C15sw LCode (mark (sw_tmpl indent docs)) = true.
-Proof. intros H. now rewrite C15_exact_sw. Qed.
-Lemma C15_contained_sc indent docs : forallb safe_sc docs = true ->
-  c15_contained C15sc LCode (mark (sc_tmpl indent docs)) = true.
-Proof. intros H. now rewrite C15_exact_sc. Qed.
-Lemma C15_contained_go indent docs : forallb safe_go docs = true ->
-  c15_contained C15go LCode (mark (go_tmpl indent docs)) = true.
-Proof. intros H. now rewrite C15_exact_go. Qed.
-Lemma C15_contained_py docstring indent docs : forallb (safe_py docstring) docs = true ->
-  c15_contained C15py LCode (mark (py_tmpl docstring indent docs)) = true.
-Proof. intros H. now rewrite C15_exact_py. Qed.
+(* the front end *)
+Lemma parse_comment_attrs_app uc a b :
+  parse_comment_attrs uc (a ++ b) = parse_comment_attrs uc a ++ parse_comment_attrs uc b.
+Proof. unfold parse_comment_attrs. now rewrite !flat_map_app. Qed.
 
-Lemma C15_necessary l docstring indent docs : forallb (c15_safe l docstring) docs = false ->
-  c15_contained l LCode (mark (c15_tmpl l docstring indent docs)) = false.
-Proof. intros H. now rewrite C15_exact. Qed.
+(* the values of the doc attributes of an attribute list, in order *)
+Definition c15_doc_values (attrs : list attr) : list str :=
+  flat_map (fun a => match a_meta a with
+                     | MNV p (VStr s) => if path_is_ident p (lit "doc") then [s] else []
+                     | _ => []
+                     end) attrs.
+
+Theorem parse_comment_attrs_carried uc attrs :
+  parse_comment_attrs uc attrs = flat_map (c15_carried uc) (c15_doc_values attrs).
+Proof.
+  unfold parse_comment_attrs, c15_doc_values. induction attrs as [|[i m] r IH]; [reflexivity|].
+  cbn [flat_map a_meta]. rewrite !flat_map_app, IH. f_equal.
+  destruct m as [p|p x y|p v]; try reflexivity. destruct (path_is_ident p (lit "doc")); [|now destruct v].
+  destruct v; [|reflexivity]. cbn [expr_to_string flat_map]. rewrite !app_nil_r. apply doc_entries_carried.
+Qed.
+
+Theorem parse_comment_attrs_no_break uc attrs d : In d (parse_comment_attrs uc attrs) -> safe_line eol_lf_cr d = true.
+Proof.
+  rewrite parse_comment_attrs_carried. intros H. apply in_flat_map in H as (v & _ & H). exact (c15_carried_no_break uc v d H).
+Qed.
+
+(* every carried line is c15_safe in every language and form *)
+Theorem c15_carried_safe uc l b vs : forallb (c15_safe l b) (flat_map (c15_carried uc) vs) = true.
+Proof.
+  apply forallb_forall. intros d H. apply in_flat_map in H as (v & _ & H).
+  apply c15_safe_no_break. exact (c15_carried_no_break uc v d H).
+Qed.
+
+(* containment of the fragments: unconditional on what the front end carries *)
+Lemma C15_contained_carried l docstring uc indent vs :
+  c15_contained l LCode (mark (c15_tmpl l docstring indent (flat_map (c15_carried uc) vs))) = true.
+Proof. rewrite C15_exact. apply c15_carried_safe. Qed.
+
+Lemma C15_contained_ts indent docs : c15_contained C15ts LCode (mark (ts_tmpl indent docs)) = true.
+Proof. unfold ts_tmpl. rewrite C15_exact. apply c15_forallb_true. intros d. apply c15_safe_ts. Qed.
+Lemma C15_contained_kt uc indent vs :
+  c15_contained C15kt LCode (mark (kt_tmpl indent (flat_map (c15_carried uc) vs))) = true.
+Proof. apply (C15_contained_carried C15kt false). Qed.
+Lemma C15_contained_sw uc indent vs :
+  c15_contained C15sw LCode (mark (sw_tmpl indent (flat_map (c15_carried uc) vs))) = true.
+Proof. apply (C15_contained_carried C15sw false). Qed.
+Lemma C15_contained_sc uc indent vs :
+  c15_contained C15sc LCode (mark (sc_tmpl indent (flat_map (c15_carried uc) vs))) = true.
+Proof. apply (C15_contained_carried C15sc false). Qed.
+Lemma C15_contained_go uc indent vs :
+  c15_contained C15go LCode (mark (go_tmpl indent (flat_map (c15_carried uc) vs))) = true.
+Proof. apply (C15_contained_carried C15go false). Qed.
+Lemma C15_contained_py_docstring indent docs : c15_contained C15py LCode (mark (py_tmpl true indent docs)) = true.
+Proof. unfold py_tmpl. rewrite C15_exact. apply c15_forallb_true. intros d. apply c15_safe_py_docstring. Qed.
+Lemma C15_contained_py uc docstring indent vs :
+  c15_contained C15py LCode (mark (py_tmpl docstring indent (flat_map (c15_carried uc) vs))) = true.
+Proof. apply (C15_contained_carried C15py docstring). Qed.
+
+(* doc strings that no source text produces (IR level): the line-comment fragments are contained iff no string has a line break *)
+Lemma C15_exact_line l indent docs : l <> C15ts -> l <> C15py ->
+  c15_contained l LCode (mark (c15_tmpl l false indent docs)) =
+  forallb (safe_line (match l with C15go => eol_lf | _ => eol_lf_cr end)) docs.
+Proof. intros H1 H2. rewrite C15_exact. destruct l; try congruence; reflexivity. Qed.
+
+Lemma known_C15_none l sites : known_C15 l sites = None.
+Proof. reflexivity. Qed.
 
 Lemma safe_line_meaning eol d : safe_line eol d = true <-> (forall c, In c d -> eol c = false).
 Proof.
@@ -632,9 +846,9 @@ Lemma ts_file_text ps : text_of (c15_file_pieces C15ts ps) = flat_map ts_part_te
 Proof.
   induction ps as [|p r IH]; [reflexivity|].
   unfold c15_file_pieces in *. cbn [flat_map]. rewrite text_of_app, IH. f_equal.
-  destruct p as [s|b i ds]; cbn [c15_part_pieces ts_part_text c15_tmpl].
+  destruct p as [s|b i ds]; cbn [c15_part_pieces ts_part_text].
   - cbn. now rewrite app_nil_r.
-  - apply C15_fragment_ts.
+  - apply (C15_fragment_text C15ts).
 Qed.
 
 Definition ts_member_code (m : ts_member) : str :=
@@ -682,6 +896,21 @@ Definition ts_parts_decl (d : ts_decl) : list c15_part :=
   end.
 
 Definition c15_part_docs (p : c15_part) : list str := match p with CPcode _ => [] | CPdoc _ _ ds => ds end.
+Lemma c15_map_flat_map' {A B C} (g : B -> C) (f : A -> list B) l :
+  map g (flat_map f l) = flat_map (fun x => map g (f x)) l.
+Proof. induction l as [|x r IH]; [reflexivity|]. cbn [flat_map]. now rewrite map_app, IH. Qed.
+(* the doc pieces of a TypeScript file: the doc strings of its fragments, escaped *)
+Lemma c15_file_docs_ts ps : docs_of (c15_file_pieces C15ts ps) = map c15_esc_ts (flat_map c15_part_docs ps).
+Proof. rewrite c15_file_docs, c15_map_flat_map'. apply flat_map_ext. now intros [s|b i ds]. Qed.
+(* the line-comment languages write the doc strings verbatim *)
+Lemma c15_file_docs_line l ps : l <> C15ts -> l <> C15py -> docs_of (c15_file_pieces l ps) = flat_map c15_part_docs ps.
+Proof.
+  intros H1 H2. rewrite c15_file_docs. apply flat_map_ext. intros [s|b i ds]; [reflexivity|].
+  cbn [c15_part_written c15_part_docs]. apply c15_written_map_id; [exact H1|congruence].
+Qed.
+(* every TypeScript fragment is contained *)
+Lemma c15_part_safe_ts p : c15_part_safe C15ts p = true.
+Proof. destruct p as [s|b i ds]; [reflexivity|]. cbn [c15_part_safe]. apply c15_forallb_true. intros d. apply c15_safe_ts. Qed.
 Definition ts_member_docs (m : ts_member) : list str := tm_docs m.
 Definition ts_variant_docs (v : ts_variant) : list str :=
   match v with
@@ -739,9 +968,9 @@ Proof.
   rewrite flat_map_flat_map. apply flat_map_ext. intros m. cbn. now rewrite app_nil_r.
 Qed.
 
-Theorem ts_decl_parts_docs d : docs_of (c15_file_pieces C15ts (ts_parts_decl d)) = ts_decl_docs d.
+Theorem ts_decl_parts_docs d : docs_of (c15_file_pieces C15ts (ts_parts_decl d)) = map c15_esc_ts (ts_decl_docs d).
 Proof.
-  rewrite c15_file_docs. change (fun p => match p with CPcode _ => [] | CPdoc _ _ ds => ds end) with c15_part_docs.
+  rewrite c15_file_docs_ts. f_equal.
   destruct d as [docs name gs ms|docs name gs ty undef|name ty value|docs name gs vs|docs name gs tag content vs];
     cbn [ts_parts_decl ts_decl_docs].
   - rewrite !flat_map_app, ts_members_docs. cbn. now rewrite ?app_nil_r.
@@ -756,15 +985,10 @@ Proof.
     + rewrite !flat_map_app, ts_members_docs. cbn. now rewrite ?app_nil_r.
 Qed.
 
-(* whole declaration: contained iff all its doc strings are safe, given neutral code parts *)
+(* whole declaration: contained, given neutral code parts *)
 Theorem C15_ts_decl_partial d : Forall (c15_code_neutral C15ts) (ts_parts_decl d) ->
-  c15_contained C15ts LCode (mark (c15_file_pieces C15ts (ts_parts_decl d))) = forallb safe_ts (ts_decl_docs d).
-Proof.
-  intros H. rewrite (C15_file_exact C15ts _ H), <- ts_decl_parts_docs, c15_file_docs.
-  induction (ts_parts_decl d) as [|p r IH]; [reflexivity|].
-  cbn [forallb flat_map]. rewrite forallb_app. inversion H; subst. rewrite IH by assumption. f_equal.
-  now destruct p.
-Qed.
+  c15_contained C15ts LCode (mark (c15_file_pieces C15ts (ts_parts_decl d))) = true.
+Proof. intros H. rewrite (C15_file_exact C15ts _ H). apply c15_forallb_true. apply c15_part_safe_ts. Qed.
 
 (* ================= Part 8: TypeScript decisions keep the IR's doc strings ================= *)
 From TS Require Import Proofs.BackCommon.
@@ -814,78 +1038,22 @@ Proof.
 Qed.
 
 (* one item through write_struct / write_enum / write_type_alias of the model: the text is code parts
-   and comment fragments whose doc strings are exactly the IR's doc strings of the item, in order;
-   contained iff they are all safe_ts, given that the code parts keep the lexer in code mode *)
+   and comment fragments whose doc pieces are exactly the IR's doc strings of the item, escaped, in order;
+   it is contained whatever the doc strings are, given that the code parts keep the lexer in code mode *)
 Theorem C15_ts_item_partial it st text st' : ts_write_item uc cfg it st = Ok (text, st') ->
   exists parts,
     text = text_of (c15_file_pieces C15ts parts) /\
-    docs_of (c15_file_pieces C15ts parts) = c15_item_docs it /\
+    docs_of (c15_file_pieces C15ts parts) = map c15_esc_ts (c15_item_docs it) /\
     (Forall (c15_code_neutral C15ts) parts ->
-     c15_contained C15ts LCode (mark (c15_file_pieces C15ts parts)) = forallb safe_ts (c15_item_docs it)).
+     c15_contained C15ts LCode (mark (c15_file_pieces C15ts parts)) = true).
 Proof.
   unfold ts_write_item. intros H. apply mbind_ok in H as (d & s1 & Hd & H). unfold ret in H. injection H as <- _.
   exists (ts_parts_decl d). pose proof (ts_decl_docs_ir _ _ _ _ Hd) as E. repeat split.
   - symmetry. apply ts_decl_parts_text.
-  - now rewrite ts_decl_parts_docs.
-  - intros Hn. now rewrite C15_ts_decl_partial, E.
+  - now rewrite ts_decl_parts_docs, E.
+  - apply C15_ts_decl_partial.
 Qed.
 End TSDocs.
-
-(* ================= Part 9: the front end keeps one raw (trimmed) string per doc attribute ================= *)
-From TS Require Import Model.Syntax Model.Attrs.
-
-(* `#[doc = "s"]` (which is also what `/// s` and `/** s */` are to syn) *)
-Definition c15_doc_attr (inner : bool) (s : str) : attr :=
-  {| a_inner := inner; a_meta := MNV [lit "doc"] (VStr s) |}.
-Definition c15_is_doc_attr (a : attr) : bool :=
-  match a_meta a with MNV p (VStr _) => path_is_ident p (lit "doc") | _ => false end.
-
-Lemma parse_comment_attrs_app uc a b :
-  parse_comment_attrs uc (a ++ b) = parse_comment_attrs uc a ++ parse_comment_attrs uc b.
-Proof. unfold parse_comment_attrs. apply flat_map_app. Qed.
-
-Lemma parse_comment_attrs_doc uc inner s : parse_comment_attrs uc [c15_doc_attr inner s] = [trim uc s].
-Proof. reflexivity. Qed.
-
-Lemma parse_comment_attrs_other uc a : c15_is_doc_attr a = false -> parse_comment_attrs uc [a] = [].
-Proof.
-  unfold c15_is_doc_attr, parse_comment_attrs. destruct a as [i m]. cbn [a_meta flat_map].
-  destruct m as [p|p x y|p v]; try reflexivity. destruct v; [|now destruct (path_is_ident p (lit "doc"))].
-  intros ->. reflexivity.
-Qed.
-
-(* the doc strings of an attribute list: the trimmed literal of every doc attribute, in order, one each *)
-Theorem parse_comment_attrs_spec uc attrs :
-  parse_comment_attrs uc attrs =
-  flat_map (fun a => match a_meta a with
-                     | MNV p (VStr s) => if path_is_ident p (lit "doc") then [trim uc s] else []
-                     | _ => []
-                     end) attrs.
-Proof.
-  unfold parse_comment_attrs. apply flat_map_ext. intros [i m]. cbn [a_meta].
-  destruct m as [p|p x y|p v]; try reflexivity. destruct v; [reflexivity|]. now destruct (path_is_ident p (lit "doc")).
-Qed.
-
-(* the same, in the vocabulary of Spec/C15Spec.v: the strings carried are [c15_carried] of the attribute values *)
-Theorem parse_comment_attrs_carried uc attrs :
-  parse_comment_attrs uc attrs =
-  map (c15_carried uc)
-      (flat_map (fun a => match a_meta a with
-                          | MNV p (VStr s) => if path_is_ident p (lit "doc") then [s] else []
-                          | _ => []
-                          end) attrs).
-Proof.
-  rewrite parse_comment_attrs_spec. induction attrs as [|[i m] r IH]; [reflexivity|].
-  cbn [flat_map a_meta]. rewrite map_app, <- IH. f_equal.
-  destruct m as [p|p x y|p v]; try reflexivity. destruct v; [|reflexivity]. now destruct (path_is_ident p (lit "doc")).
-Qed.
-
-(* carried text has no white space at either end left to escape: it is a fixed point of the trim *)
-Lemma trim_start_idem uc s : trim_start uc (trim_start uc s) = trim_start uc s.
-Proof.
-  induction s as [|c r IH]; [reflexivity|]. cbn [trim_start]. destruct (u_is_ws uc c) eqn:E; [exact IH|].
-  cbn [trim_start]. now rewrite E.
-Qed.
 
 (* ================= Part 10: the Scala renderer as code parts and comment fragments ================= *)
 Definition sc_part_text (p : c15_part) : str :=
@@ -895,9 +1063,9 @@ Lemma sc_file_text ps : text_of (c15_file_pieces C15sc ps) = flat_map sc_part_te
 Proof.
   induction ps as [|p r IH]; [reflexivity|].
   unfold c15_file_pieces in *. cbn [flat_map]. rewrite text_of_app, IH. f_equal.
-  destruct p as [s|b i ds]; cbn [c15_part_pieces sc_part_text c15_tmpl].
+  destruct p as [s|b i ds]; cbn [c15_part_pieces sc_part_text].
   - cbn. now rewrite app_nil_r.
-  - apply C15_fragment_sc.
+  - apply (C15_fragment_text C15sc).
 Qed.
 
 Definition sc_member_code (m : sc_member) : str :=
@@ -996,7 +1164,7 @@ Qed.
 
 Theorem sc_decl_parts_docs d : docs_of (c15_file_pieces C15sc (sc_parts_decl d)) = sc_decl_docs d.
 Proof.
-  rewrite c15_file_docs. change (fun p => match p with CPcode _ => [] | CPdoc _ _ ds => ds end) with c15_part_docs.
+  rewrite c15_file_docs_line by discriminate.
   destruct d as [docs name gs ty|docs name gs ms|docs name|docs name gs vs|l]; cbn [sc_parts_decl sc_decl_docs].
   - cbn. now rewrite app_nil_r.
   - rewrite !flat_map_app, sc_members_docs. cbn. now rewrite ?app_nil_r.
@@ -1009,7 +1177,7 @@ Qed.
 Theorem C15_sc_decl_partial d : Forall (c15_code_neutral C15sc) (sc_parts_decl d) ->
   c15_contained C15sc LCode (mark (c15_file_pieces C15sc (sc_parts_decl d))) = forallb safe_sc (sc_decl_docs d).
 Proof.
-  intros H. rewrite (C15_file_exact C15sc _ H), <- sc_decl_parts_docs, c15_file_docs.
+  intros H. rewrite (C15_file_exact C15sc _ H), <- sc_decl_parts_docs, c15_file_docs_line by discriminate.
   induction (sc_parts_decl d) as [|p r IH]; [reflexivity|].
   cbn [forallb flat_map]. rewrite forallb_app. inversion H; subst. rewrite IH by assumption. f_equal.
   now destruct p.
